@@ -37,4 +37,25 @@ theorem C19_table_switches_are_the_sources :
     Gen.ConfigSrc.rejectStopsWorkers = some Config.rejectStopsWorkers ∧
     Gen.ConfigSrc.removeCleansTables = some Config.removeCleansTables := by decide
 
+/-- C02: `Message.from_bytes` restores the received flag octet after constructing the command class -/
+theorem C02_flags_switch_is_the_sources : Gen.ConfigSrc.decodeKeepsFlags = some Config.decodeKeepsFlags := by decide
+
+/-- C20: `Message.to_answer` re-applies the request's P bit after constructing the answer class -/
+theorem C20_p_bit_switch_is_the_sources : Gen.ConfigSrc.answerKeepsP = some Config.answerKeepsP := by decide
+
+/-- C06: the CER/CEA timeouts run from the establishment of the transport -/
+theorem C06_timeout_switch_is_the_sources :
+    Gen.ConfigSrc.ceTimeoutFromEstablished = some Config.ceTimeoutFromEstablished := by decide
+
+/-- C13: a synchronous connect failure goes through `close_connection_socket` -/
+theorem C13_connect_switch_is_the_sources : Gen.ConfigSrc.connectFailCloses = some Config.connectFailCloses := by decide
+
+/-- C17: the origin bookkeeping of the retransmission check is keyed per connection -/
+theorem C17_origin_key_switch_is_the_sources : Gen.ConfigSrc.originKeyPerConn = some Config.originKeyPerConn := by decide
+
+/-- C19: only received requests are recorded as awaiting an answer; a failed synchronous connect releases everything -/
+theorem C19_origin_switches_are_the_sources :
+    Gen.ConfigSrc.originOnlyRequests = some Config.originOnlyRequests ∧
+    Gen.ConfigSrc.connectFailCloses = some Config.connectFailCloses := by decide
+
 end DV.Node
